@@ -1,10 +1,11 @@
 #!/bin/bash
 # usage: run_check.sh <prop> <tier>
 # Static check of one property: loads /repo's current working tree, builds SSA, decides every obligation, writes
-# /verif/evidence/<prop>.json. The checker binary is rebuilt when missing or older than any of its sources.
+# /verif/evidence/<prop>.json. The checker binary is rebuilt when missing or older than any of its sources
+# (dev-time queues that must not see half-edited sources set VERIF_NO_REBUILD=1).
 . /verif/scripts/goenv.sh
 cd /verif
-if [ ! -x /verif/bin/bifrost-verify ] || [ -n "$(find /verif/checker -name '*.go' -newer /verif/bin/bifrost-verify -print -quit 2>/dev/null)" ]; then
+if [ -z "${VERIF_NO_REBUILD:-}" ] && { [ ! -x /verif/bin/bifrost-verify ] || [ -n "$(find /verif/checker -name '*.go' -newer /verif/bin/bifrost-verify -print -quit 2>/dev/null)" ]; }; then
   bash /verif/scripts/setup.sh >/dev/null || exit 2
 fi
 exec /verif/bin/bifrost-verify -prop "$1" -tier "${2:-quick}"
